@@ -126,7 +126,7 @@ Proof.
   { unfold set_stable. destruct (st_closed w); [split; reflexivity|].
     destruct (key_ok k); cbn [negb]; [|split; reflexivity].
     unfold io. cbn [is_delete]. change (e_fault (inc_stable e true)) with (e_fault e).
-    destruct (e_fault e) as [[|f]|]; split; reflexivity. }
+    destruct (e_fault e) as [[|f]|]; [cbn [is_txn andb]; destruct (fx_land _)|..]; split; reflexivity. }
   destruct H as [H1 H2]. split; [exact H1|]. split; [exact H2|]. apply abs_files. exact H1.
 Qed.
 
@@ -145,7 +145,7 @@ Lemma io_SS a e : not_set a -> SS e (snd (io a e)).
 Proof.
   intros Ha. unfold SS, io.
   destruct (is_delete a); [destruct (armed e && fx_del (e_fx e)); [reflexivity|]; cbn [snd e_disk]; rewrite apply_stable; destruct a; try reflexivity; contradiction|].
-  destruct (e_fault e) as [[|f]|]; cbn [snd e_disk]; try reflexivity; rewrite apply_stable;
+  destruct (e_fault e) as [[|f]|]; [destruct (is_txn a && fx_land (e_fx e))|..]; cbn [snd e_disk]; try reflexivity; rewrite apply_stable;
     destruct a; try reflexivity; contradiction.
 Qed.
 Lemma with_m_SS e m : SS e (with_m e m). Proof. reflexivity. Qed.
